@@ -203,7 +203,9 @@ class Prop(PropBase):
                                                 and bool(t.tai in z) == bool(z.contains(t)) for t in inner)
                                             and [bool(b) for b in z.contains(Time(inner))] == [bool(z.contains(t)) for t in inner])
         elif z.start_time is None:
-            probes.append(["nostart", "0", bool(z.contains(Time(sigs.T0S[0])))])
+            arr = z.contains(Time([sigs.T0S[0], sigs.T0S[-1]]))      # array of instants: nothing is contained, shape kept
+            probes.append(["nostart", "0", bool(z.contains(Time(sigs.T0S[0]))) or bool(np.any(arr)) or np.shape(arr) != (2,)
+                           or (Time(sigs.T0S[0]) in z)])
         else:
             # empty signal: start == stop up to astropy's sub-ps UTC<->TAI noise, so the instant itself
             # is inside the isclose zone (don't-care); probe half a sample either side instead
